@@ -80,6 +80,10 @@ ScanStep(st, text, syntax, typenames) ==
                   b == st.i + m.len - 1
                   nx == [st EXCEPT !.i = st.i + m.len]
               IN CASE act.k = "tok" -> [nx EXCEPT !.toks = Append(@, Tk(act.tok, "", 0, a, b))]
+                   [] act.k = "letter" ->          \* a path-quantifier letter: in a model it is an identifier, hence a type name when it names a type
+                        IF Join(lx) \in typenames /\ ~(act.unless_property /\ syntax = "property")
+                        THEN [nx EXCEPT !.toks = Append(@, Tk("T_TYPENAME", Join(lx), 0, a, b))]
+                        ELSE [nx EXCEPT !.toks = Append(@, Tk(act.tok, "", 0, a, b))]
                    [] act.k = "skip" -> nx
                    [] act.k = "begin" -> [nx EXCEPT !.cond = act.to]
                    [] act.k = "newline" ->
